@@ -138,7 +138,7 @@ def call_shape(prog, rep, fam, mi):
 
 
 def run(prog, rep):
-    rep.explanation = EXPL
+    rep.explanation = EXPL + ' C12.fixed: the keyword/slot obligations of C11.mle filed under this property (a fixed value enters the likelihood through its own slot and mapping).'
     rep.assumptions = ASSUME
     rep.part(dispatch, prog, rep)
     for fam in families(prog, include_generic=True):
